@@ -93,8 +93,9 @@ def unbound_names(ix, f):
 
 
 # ---------------------------------------------------------------- E8b definite use-before-definition
-def definite_unbound_locals(run, f):
-    """[(name, node)]: loads of a *local* name at a statement that no path reaches with the name assigned:
+def definite_unbound_locals(run, f, may=False):
+    """[(name, node)]: loads of a *local* name at a statement that no path reaches with the name assigned
+    (may=True: that SOME explored path reaches unassigned - over-approximate, needs triage):
     executing the statement always raises UnboundLocalError.  (Path-exhaustive over E3; a load that is unassigned only
     on some paths is not reported - that may be an infeasible path.)"""
     from .absint import Domain, Interp, NORMAL
@@ -228,7 +229,7 @@ def definite_unbound_locals(run, f):
         if isinstance(stmt, ast.AugAssign):
             pass
         for ld in header_loads(stmt):
-            if ld.id in locals_ and all(ld.id not in st for st in states):
+            if ld.id in locals_ and (any(ld.id not in st for st in states) if may else all(ld.id not in st for st in states)):
                 # `x = f(x)` loads x before storing: still unbound; but skip names stored earlier in the same statement (walrus)
                 res.append((ld.id, ld))
     seen = set()
